@@ -27,6 +27,8 @@ structure Params (α : Type) where
   constMix : α
   power : α
   dim : α
+  /-- `self.eps` (the coincidence threshold of the gradient routines; not read by a kernel matrix) -/
+  eps : α
 
 /-- One in-place element-wise tensor operation. -/
 inductive Op (α : Type)
